@@ -63,8 +63,8 @@ func redirectOracle(c *core.Ctx, e *scen.Engine, s *scen.Sent, n *world.Node, r 
 		return // other data: C01/C03
 	}
 	if orig.Port != p.Port {
-		c.Violate(fmt.Sprintf("C13/%s-accepted/edited-port@%s", kind, roleOf(orig, n.Name)),
-			"%s accepted %s of committed packet %s with port %q although the sender chose %q", n.Name, kind, model.KeyOf(p), p.Port, orig.Port)
+		c.Violate(fmt.Sprintf("C13/%s-accepted/edited-port", kind),
+			"%s (%s of the packet) accepted %s of committed packet %s with port %q although the sender chose %q", n.Name, roleOf(orig, n.Name), kind, model.KeyOf(p), p.Port, orig.Port)
 	}
 	if orig.RelayChain != p.RelayChain {
 		what := "relay-replaced"
@@ -73,8 +73,8 @@ func redirectOracle(c *core.Ctx, e *scen.Engine, s *scen.Sent, n *world.Node, r 
 		} else if p.RelayChain == "" {
 			what = "relay-removed"
 		}
-		c.Violate(fmt.Sprintf("C13/%s-accepted/%s@%s", kind, what, roleOf(orig, n.Name)),
-			"%s accepted %s of committed packet %s with relay chain %q although the sender chose %q", n.Name, kind, model.KeyOf(p), p.RelayChain, orig.RelayChain)
+		c.Violate(fmt.Sprintf("C13/%s-accepted/%s", kind, what),
+			"%s (%s of the packet) accepted %s of committed packet %s with relay chain %q although the sender chose %q", n.Name, roleOf(orig, n.Name), kind, model.KeyOf(p), p.RelayChain, orig.RelayChain)
 	}
 }
 
